@@ -64,13 +64,15 @@ N_MC = {'quick': 520, 'thorough': 5200}
 N_INT = {'quick': 220, 'thorough': 2000}
 N_DER = {'quick': 300, 'thorough': 3000}
 N_HIST = {'quick': 70, 'thorough': 700}
+N_REUSE = {'quick': 60, 'thorough': 600}
 
 INT_RTOL, INT_ATOL = 1e-9, 1e-11
 
 # ---------------------------------------------------------------------------
 # monitors installed once per worker
 
-PROD: list[dict] = []  # every array a registered generator returned
+PROD: list[dict] = []  # every array a registered generator returned (cleared before each monitored evaluation)
+PROD_ALL: list[dict] = []  # the same, never cleared: one process = one case, so this is the case's whole history
 GD_CALLS: list[dict] = []  # every Database.generate_draws call
 _spies_installed = False
 
@@ -78,8 +80,10 @@ _spies_installed = False
 def _spy(tname, fn):
     def spy(sample_size, number_of_draws):
         out = fn(sample_size, number_of_draws)
-        PROD.append({'type': tname, 'args': (sample_size, number_of_draws),
-                     'out': np.array(out, copy=True) if isinstance(out, np.ndarray) else out})
+        e = {'type': tname, 'args': (sample_size, number_of_draws),
+             'out': np.array(out, copy=True) if isinstance(out, np.ndarray) else out}
+        PROD.append(e)
+        PROD_ALL.append(e)
         return out
 
     spy.__name__ = f'spy_{tname}'
@@ -122,8 +126,9 @@ def warmup():
     _install_spies()
 
 
-def _register_user(db):
-    """deterministic user-defined generators, old (plain tuple) and new (named tuple) format"""
+def _register_user(db, with_numpy_based=False):
+    """deterministic user-defined generators, old (plain tuple) and new (named tuple) format;
+    with_numpy_based: also 'EXPO_np', a user generator that consumes numpy's global random stream"""
     from biogeme.native_draws import RandomNumberGeneratorTuple
     from ..oracle import c10_oracle as co
 
@@ -131,6 +136,8 @@ def _register_user(db):
     for k, t in enumerate(co.USER_TYPES):
         f = _spy(t, (lambda tt: (lambda n, r: co.user_series(tt, n, r)))(t))
         reg[t] = (f, f'deterministic {t}') if k % 2 else RandomNumberGeneratorTuple(f, f'deterministic {t}')
+    if with_numpy_based:
+        reg['EXPO_np'] = (_spy('EXPO_np', lambda n, r: -np.log(np.random.rand(n, r))), 'exponential, numpy global stream')
     db.set_random_number_generators(reg)
 
 
@@ -155,6 +162,11 @@ def cases(seed, tier):
         out.append({'kind': 'hist', 'seed': seed, 'i': i, 'tier': tier})
     for k in range(3):
         out.append({'kind': 'hist', 'seed': 4242, 'i': k, 'tier': 'quick', 'directed': 'reregister'})
+    for i in range(N_REUSE[tier]):
+        out.append({'kind': 'reuse', 'seed': seed, 'i': i, 'tier': tier})
+    for k in range(4):
+        out.append({'kind': 'reuse', 'seed': 4242, 'i': k, 'tier': 'quick', 'directed': 'same_request'})
+    out.append({'kind': 'stale_function', 'seed': 0, 'i': 0, 'tier': 'quick'})
     out.append({'kind': 'closed', 'seed': 0, 'i': 0, 'tier': 'quick'})
     out.append({'kind': 'reserved', 'seed': 0, 'i': 0, 'tier': 'quick'})
     out.append({'kind': 'sametype', 'seed': 0, 'i': 0, 'tier': 'quick'})
@@ -498,6 +510,58 @@ def _table_call(calls, table):
     return None
 
 
+def _names_by_column(ho, types, table):
+    """which variable each column of the table at the engine boundary belongs to, read from the draw indices in
+    the signature handed over with it (variables of other formulas of the same object: remaining names, sorted)"""
+    from ..oracle import signature
+
+    if table is None or getattr(table, 'ndim', 0) != 3 or table.shape[2] != len(types) or ho['signature'] is None:
+        return None
+    try:
+        _, _, info = signature.decode(ho['signature'], ho['free'], ho['fixed'], ho['columns'])
+    except Exception:
+        return None
+    cols = [None] * table.shape[2]
+    for lf in info['leaves']['draws']:
+        if 0 <= lf['id'] < len(cols) and lf['name'] in types:
+            cols[lf['id']] = lf['name']
+    rest = sorted(n for n in types if n not in cols)
+    for k in range(len(cols)):
+        if cols[k] is None:
+            if not rest:
+                return None
+            cols[k] = rest.pop(0)
+    if rest or len(set(cols)) != len(cols):
+        return None
+    return cols
+
+
+def _resolve_call(cx, calls, ho, types):
+    """the generation that produced the table the engine was given. Normally a generate_draws call made during
+    the monitored evaluation; when the code under test hands over a table it generated EARLIER (nothing in the
+    property forbids that) the table is attributed at the engine boundary: column -> variable from the signature,
+    column -> production from everything the generator spies recorded in this process."""
+    from ..oracle import c10_oracle as co
+
+    table = ho['table']
+    c = _table_call(calls, table)
+    if c is not None or table is None:
+        return c
+    names = _names_by_column(ho, types, table)
+    if names is None:
+        return None
+    cx.rec.c('draw_table_from_an_earlier_generation')
+    prods = {}
+    for p in PROD_ALL:
+        if isinstance(p['out'], np.ndarray):
+            prods.setdefault(p['type'], []).append(p['out'])
+    cx.rec.ev()
+    for pb in co.match_columns(table, names, types, prods):
+        cx.viol('draw-table-column-is-not-own-generator-series', pb + ' (table from an earlier generation)', names=names)
+    return {'names': names, 'types': dict(types), 'R': table.shape[1], 'N': table.shape[0], 'result': table,
+            'prods': list(PROD_ALL), 'stored': table, 'pseudo': True}
+
+
 # ---------------------------------------------------------------------------
 # Monte-Carlo
 
@@ -529,7 +593,7 @@ def _run_mc(case, rec):
     calls = list(GD_CALLS)
     ho = _handover('one')
     table = ho['table']
-    call = _table_call(calls, table)
+    call = _resolve_call(cx, calls, ho, types)
     if call is None and calls:
         call = calls[-1]
     if call is None:
@@ -538,7 +602,8 @@ def _run_mc(case, rec):
             rec.c('mc_refused_before_draws')
             cx.viol(f'montecarlo-raises-{type(err).__name__}', f'get_value_c raised before generating draws: {err}')
         else:
-            cx.viol('montecarlo-no-draws-generated', 'get_value_c returned without any call to generate_draws')
+            cx.viol('engine-given-no-attributable-draw-table',
+                    'get_value_c returned, but no table whose columns can be attributed to the draw variables reached the engine')
         return
     series = _series_from(call, table if table is not None else call['result'], types, N, R)
     if series is None:
@@ -560,7 +625,7 @@ def _run_mc(case, rec):
     rec.c('get_value_c_generate_draws_calls', len(calls))
     if table is None:
         cx.viol('engine-given-no-draw-table', 'no setDraws call reached the engine')
-    elif _table_call(calls, table) is None:
+    elif call.get('pseudo') is None and _table_call(calls, table) is None:
         cx.viol('engine-given-other-table-than-generated', 'the table handed to setDraws is not a result of generate_draws')
     rec.ev()
     rec.key(['mc', spec['ast'], spec['shared'], spec['data'], spec['betas'], spec['dvars'], R])
@@ -603,10 +668,13 @@ def _run_mc(case, rec):
             PROD.clear(); GD_CALLS.clear(); ep.reset()
             e2, _ = build.build(spec)
             vs = e2.get_value_c(database=db, number_of_draws=R, prepare_ids=True, aggregation=True)
-            c2 = GD_CALLS[-1] if GD_CALLS else None
             ho2 = _handover('one')
+            c2 = _resolve_call(cx, list(GD_CALLS), ho2, types)
+            _check_generate_draws_calls(cx, list(GD_CALLS), types, N, R)
             s2 = _series_from(c2, ho2['table'], types, N, R) if c2 is not None and ho2['table'] is not None else None
-            if s2 is not None:
+            if s2 is None:
+                cx.viol('engine-given-no-attributable-draw-table', 'aggregated evaluation: no attributable draw table at the engine boundary')
+            else:
                 j2 = evalast.judge(spec['ast'], spec['data'], bv, spec['shared'], draws=s2)
                 if j2['ok']:
                     rec.ev()
@@ -659,7 +727,7 @@ def _mc_biogeme(case, rec, cx, spec, types, ops):
     calls = list(GD_CALLS)
     ho = _handover('biogeme')
     table = ho['table']
-    call = _table_call(calls, table)
+    call = _resolve_call(cx, calls, ho, all_types)
     if err is not None and (call is None or table is None):
         cx.viol(f'likelihood-montecarlo-raises-{type(err).__name__}', f'BIOGEME raised {type(err).__name__}: {str(err)[:400]}')
         return
@@ -761,7 +829,7 @@ def _run_seeds(case, rec):
         bg = _mk_biogeme(expr, db, R=R, seed=seed, threads=1 + k % 3)
         ll = bg.calculate_likelihood(x, scaled=False)
         ho = _handover('biogeme')
-        call = _table_call(list(GD_CALLS), ho['table'])
+        call = _resolve_call(cx, list(GD_CALLS), ho, types)
         return ll, ho['table'], call, list(GD_CALLS)
 
     s = [17, 123456, 1, 2**31 - 1, 99, 4242][k % 6]
@@ -1138,7 +1206,7 @@ def _run_sametype(case, rec):
         calls = list(GD_CALLS)
         ho = _handover('one')
         _check_generate_draws_calls(cx, calls, types, 4, R)
-        call = _table_call(calls, ho['table'])
+        call = _resolve_call(cx, calls, ho, types)
         if call is None:
             cx.viol('engine-given-other-table-than-generated', 'same-type case')
             continue
@@ -1205,7 +1273,9 @@ def _run_hist(case, rec):
 
         def f(n, r, _c=code, _l=low, _s=span, _gid=gid, _t=t):
             out = co.coded_series(_c, _l, _s, n, r)
-            PROD.append({'type': _t, 'gid': _gid, 'args': (n, r), 'out': np.array(out, copy=True)})
+            e = {'type': _t, 'gid': _gid, 'args': (n, r), 'out': np.array(out, copy=True)}
+            PROD.append(e)
+            PROD_ALL.append(e)
             return out
 
         gens[gid] = (t, code, low, span, f)
@@ -1362,9 +1432,9 @@ def _run_hist(case, rec):
         calls = list(GD_CALLS)
         prods = list(PROD)
         ho = _handover(kind)
-        call = _table_call(calls, ho['table'])
+        call = _resolve_call(cx, calls, ho, types)
         if call is None:
-            cx.viol('engine-given-other-table-than-generated', f'history ({mode}): table handed over is not a generate_draws result')
+            cx.viol('engine-given-other-table-than-generated', f'history ({mode}): no attributable draw table at the engine boundary')
             return
         # who was called?
         rec.ev()
@@ -1433,6 +1503,238 @@ def _run_hist(case, rec):
 
 
 # ---------------------------------------------------------------------------
+# one Database object reused by several seeded objects / evaluations
+
+
+def _reuse_model(rng, R, tag):
+    from ..gen import c10_gen as gen
+
+    natives = sorted(gen.RANDOM_NATIVE if R % 2 == 0 else [t for t in gen.RANDOM_NATIVE if not t.endswith('_ANTI')])
+    k = rng.randint(2, 3)
+    tys = [rng.choice(natives)]
+    pool = natives + ['DET_A', 'zz_user', 'EXPO_np', 'EXPO_np', 'NORMAL_HALTON3']
+    while len(tys) < k:
+        t = rng.choice(pool)
+        if t not in tys:
+            tys.append(t)
+    rng.shuffle(tys)
+    names = rng.sample(gen.DRAW_NAMES, k)
+    if tag == 'other':
+        names = [n + '_o' for n in names]
+    dvars = [[n, t] for n, t in zip(names, tys)]
+    u = ['mul', ['beta', 'B_time'], ['var', 'x_time']]
+    for j, (n, t) in enumerate(dvars):
+        d = ['draws', n, t]
+        term = [['mul', ['beta', 'mu'], d], ['mul', ['var', 'Cost'], ['sin', d]], ['mul', ['beta', 'k_fix'], ['mul', d, ['var', 'x_time']]]][j % 3]
+        u = [rng.choice(['add', 'sub']), u, term]
+    ast = ['mc', ['exp', ['mul', ['num', 0.3], u]]] if rng.random() < 0.5 else \
+        ['log', ['mc', ['div', ['num', 1.0], ['add', ['num', 1.0], ['exp', ['neg', u]]]]]]
+    return ast, dvars
+
+
+def _run_reuse(case, rec):
+    """'with a non-zero seed the results are reproducible': the same model, data, number of draws and non-zero
+    seed evaluated (1) on a Database object that has been used before -- possibly by an unseeded evaluation of
+    the same request, possibly with another model in between --, (2) again, (3) again, and (4) on a freshly built
+    Database, must give the same draw tables at the engine boundary and the same results. BIOGEME level: the
+    seed parameter. Expression level (get_value_c(prepare_ids=True), create_function): numpy's global generator
+    seeded by the caller immediately before the call, which is all the seed parameter does. Every single
+    evaluation also passes the Monte-Carlo value oracle."""
+    import pandas as pd
+    import biogeme.database as bdb
+    from ..gen import build
+    from ..oracle import evalast
+    from ..monitors import engine_proxy as ep
+
+    directed = case.get('directed')
+    rng = random.Random(f'c10/reuse/{case["seed"]}/{case["i"]}/{directed}')
+    N = rng.randint(1, 8)
+    R = rng.choice([1, 2, 3, 4, 7, 10, 50])
+    data = {'x_time': [round(rng.uniform(-2, 2), 3) for _ in range(N)],
+            'Cost': [round(rng.uniform(0.2, 3), 3) for _ in range(N)]}
+    betas = {'mu': [round(rng.uniform(0.2, 0.9), 3), 0], 'B_time': [round(rng.uniform(-1.2, -0.2), 3), 0],
+             'k_fix': [0.6, 1]}
+    astA, dvA = _reuse_model(rng, R, 'main')
+    astO, dvO = _reuse_model(rng, R, 'other')
+    levels = ['simulate', 'likelihood', 'value', 'function']
+    level = levels[case['i'] % 4] if directed else rng.choice(levels)
+    seed = rng.choice([1, 17, 2024, 123456, 2**31 - 1])
+    threads = rng.choice([1, 2, 3])
+    x = [round(betas['B_time'][0] + rng.uniform(-0.1, 0.1), 4), round(betas['mu'][0] + rng.uniform(-0.1, 0.1), 4)]
+    bvx = {'B_time': x[0], 'mu': x[1], 'k_fix': 0.6}
+    unseeded_first = True if directed and case['i'] >= 2 else (False if directed else rng.random() < 0.4)
+    other_between = False if directed else rng.random() < 0.4
+    log = []
+    spec_w = {'level': level, 'R': R, 'rows': N, 'seed': seed, 'model': astA, 'draw_variables': dvA, 'data': data,
+              'betas': betas, 'steps': log}
+    cx = _Ctx(rec, spec_w)
+    counter = {'n': 0}
+
+    def mkdb(name):
+        d = bdb.Database(name, pd.DataFrame(data))
+        _register_user(d, with_numpy_based=True)
+        return d
+
+    def run(dbobj, which, seeded, lvl, label):
+        ast, dv = (astA, dvA) if which == 'main' else (astO, dvO)
+        types = dict(dv)
+        counter['n'] += 1
+        np.random.seed(7000 + 13 * counter['n'] + case['i'])
+        np.random.uniform(size=3 + counter['n'])  # the caller's own use of the global stream between runs
+        spec = {'ast': ast, 'shared': [], 'data': data, 'betas': betas}
+        expr, _ = build.build(spec)
+        PROD.clear(); GD_CALLS.clear(); ep.reset()
+        handle = None
+        log.append({'run': label, 'database': 'fresh' if label == 'fresh' else 'shared', 'model': which, 'level': lvl,
+                    'seed': seed if seeded else 0})
+        if lvl in ('simulate', 'likelihood'):
+            bg = _mk_biogeme(expr, dbobj, R=R, seed=seed if seeded else 0, threads=threads)
+            handle = bg
+            if lvl == 'likelihood':
+                res = np.asarray(bg.calculate_likelihood(x, scaled=False), dtype=float)
+            else:
+                res = bg.simulate({'B_time': x[0], 'mu': x[1]})['log_like'].to_numpy()
+            kind = 'biogeme'
+        elif lvl == 'value':
+            if seeded:
+                np.random.seed(seed)
+            res = np.asarray(expr.get_value_c(database=dbobj, number_of_draws=R, prepare_ids=True, betas={'B_time': x[0], 'mu': x[1]}), dtype=float)
+            kind = 'one'
+        else:
+            if seeded:
+                np.random.seed(seed)
+            f = expr.create_function(database=dbobj, number_of_draws=R, gradient=False, hessian=False, bhhh=False)
+            res = np.asarray(f(list(x)).function, dtype=float)
+            kind = 'one'
+        ho = _handover(kind)
+        calls = list(GD_CALLS)
+        table = ho['table']
+        call = _resolve_call(cx, calls, ho, types)
+        if call is None:
+            cx.viol('engine-given-other-table-than-generated', f'reuse ({label}, {lvl}): no attributable draw table at the engine boundary')
+            return None
+        _check_generate_draws_calls(cx, calls, types, N, R)
+        ser = _series_from(call, table, types, N, R)
+        if ser is None:
+            if not rec.viol:
+                cx.viol('generate_draws-no-series-for-variable', f'reuse ({label}): no production of the declared generator for some variable')
+            return None
+        j = evalast.judge(ast, data, bvx, [], draws=ser)
+        if j['ok']:
+            rec.ev()
+            rec.c('reuse_evaluations_value_checked')
+            target = j['value'].sum() if lvl in ('likelihood', 'function') else j['value']
+            if not close(res, target, 1e-9, 1e-11 * max(1, N)):
+                cx.viol('montecarlo-value-differs-from-mean-over-own-series',
+                        f'reuse ({label}, {lvl}): real code {np.asarray(res).tolist()} reference {np.asarray(target).tolist()}')
+        return {'res': res, 'table': np.array(table, copy=True), 'handle': handle, 'ok': j['ok']}
+
+    try:
+        shared = mkdb('shared')
+        if unseeded_first:
+            if run(shared, 'main', False, level, 'unseeded-first') is None:
+                return
+            rec.c('reuse_unseeded_evaluation_first')
+        r1 = run(shared, 'main', True, level, 'first')
+        if r1 is None or rec.viol:
+            return
+        if other_between:
+            if run(shared, 'other', rng.random() < 0.5, rng.choice(['value', 'likelihood']), 'other-model') is None or rec.viol:
+                return
+            rec.c('reuse_other_model_in_between')
+        r2 = run(shared, 'main', True, level, 'second')
+        if r2 is None or rec.viol:
+            return
+        r3 = run(shared, 'main', True, level, 'third')
+        if r3 is None or rec.viol:
+            return
+        r4 = run(mkdb('fresh'), 'main', True, level, 'fresh')
+        if r4 is None or rec.viol:
+            return
+    except BaseException as e:
+        cx.viol(f'reuse-raises-{type(e).__name__}', str(e)[:400])
+        return
+    rec.ev()
+    rec.key(['reuse', level, astA, dvA, data, betas, R, seed, unseeded_first, other_between])
+    rec.c('reuse_groups_compared')
+    rec.c('reuse_level_' + level)
+    if directed:
+        rec.c('reuse_directed_' + directed)
+    where = 'seed-reused-database' if level in ('simulate', 'likelihood') else 'seeded-expression-evaluation-on-reused-database'
+    for lab, r in (('first', r1), ('second', r2), ('third', r3)):
+        if r['table'].shape != r4['table'].shape or not np.array_equal(r['table'], r4['table']):
+            cx.viol(f'{where}-draws-differ-from-fresh-database',
+                    f'{level}, seed={seed}, R={R}: the {lab} seeded use of the shared Database object handed the engine other draws '
+                    f'than a freshly built Database with the same seed, model and data '
+                    f'(unseeded evaluation first: {unseeded_first}, other model in between: {other_between})')
+            break
+    for lab, r in (('first', r1), ('second', r2), ('third', r3)):
+        if not close(r['res'], r4['res'], 1e-13, 0):
+            cx.viol(f'{where}-result-differs-from-fresh-database',
+                    f'{level}, seed={seed}, R={R}: {lab} use {np.asarray(r["res"]).tolist()} vs fresh database {np.asarray(r4["res"]).tolist()}')
+            break
+    # the first object, evaluated again after the others were built on the same Database
+    if level in ('simulate', 'likelihood') and not rec.viol:
+        try:
+            bg = r1['handle']
+            again = np.asarray(bg.calculate_likelihood(x, scaled=False), dtype=float) if level == 'likelihood' else \
+                bg.simulate({'B_time': x[0], 'mu': x[1]})['log_like'].to_numpy()
+        except BaseException as e:
+            cx.viol(f'reuse-first-object-raises-{type(e).__name__}', str(e)[:300])
+            return
+        rec.ev()
+        rec.c('reuse_first_object_reevaluated')
+        if not close(again, r1['res'], 1e-13, 0):
+            cx.viol('biogeme-object-result-changes-after-other-objects-built-on-same-database',
+                    f'{level}: first {np.asarray(r1["res"]).tolist()}, same object later {np.asarray(again).tolist()}')
+    rec.sample({'kind': 'one Database reused', **{k: spec_w[k] for k in ('level', 'R', 'rows', 'seed', 'draw_variables', 'steps')},
+                'results': [np.asarray(r['res']).tolist() for r in (r1, r2, r3, r4)]})
+
+
+def _run_stale_function(case, rec):
+    """directed: a function made by create_function, called again after ANOTHER Monte-Carlo formula was evaluated
+    on the same Database object (same number of draw variables and draws, so that shapes agree)"""
+    import pandas as pd
+    import biogeme.database as bdb
+    from ..gen import build
+    from ..oracle import c10_oracle as co
+
+    data = {'x_time': [1.0, 2.0, 3.0]}
+    betas = {'mu': [0.5, 0]}
+    db = bdb.Database('stale', pd.DataFrame(data))
+    _register_user(db)
+    specF = {'ast': ['mc', ['mul', ['mul', ['draws', 'xi', 'DET_A'], ['beta', 'mu']], ['var', 'x_time']]], 'shared': [],
+             'data': data, 'betas': betas}
+    specG = {'ast': ['mc', ['mul', ['draws', 'Zd', 'DET_POS'], ['var', 'x_time']]], 'shared': [], 'data': data, 'betas': betas}
+    cx = _Ctx(rec, {'f': specF['ast'], 'other_formula': specG['ast'], 'data': data})
+    R = 4
+    x_arr = np.array(data['x_time'])
+    own = float((co.user_series('DET_A', 3, R).mean(axis=1) * 0.5 * x_arr).sum())
+    other = float((co.user_series('DET_POS', 3, R).mean(axis=1) * 0.5 * x_arr).sum())
+    try:
+        ef, _ = build.build(specF)
+        f = ef.create_function(database=db, number_of_draws=R, gradient=False, hessian=False, bhhh=False)
+        before = float(f([0.5]).function)
+        eg, _ = build.build(specG)
+        eg.get_value_c(database=db, number_of_draws=R, prepare_ids=True)
+        after = float(f([0.5]).function)
+    except BaseException as e:
+        cx.viol(f'stale-function-raises-{type(e).__name__}', str(e)[:300])
+        return
+    rec.ev(2)
+    rec.key(['stale_function'])
+    rec.c('stale_function_checked')
+    if not close(before, own, 1e-12, 0):
+        cx.viol('montecarlo-value-differs-from-mean-over-own-series', f'create_function value {before}, mean over own series {own}')
+    if not close(after, own, 1e-12, 0):
+        cx.viol('create_function-called-after-other-model-on-same-database-reads-other-draw-table',
+                f'f = MonteCarlo(xi[DET_A]*mu*x).create_function(db, 4 draws): f([0.5]) = {before} (mean over the DET_A series: {own}); '
+                f'after MonteCarlo(Zd[DET_POS]*x).get_value_c(database=db, number_of_draws=4, prepare_ids=True) the same call '
+                f'returns {after}' + (' = the mean over the DET_POS series' if close(after, other, 1e-12, 0) else ''))
+    rec.sample({'kind': 'stale function', 'before': before, 'after': after, 'own_series_value': own, 'other_series_value': other})
+
+
+# ---------------------------------------------------------------------------
 
 
 def run_case(case):
@@ -1441,7 +1743,7 @@ def run_case(case):
     {
         'mc': _run_mc, 'int': _run_int, 'der': _run_der, 'seeds': _run_seeds, 'closed': _run_closed,
         'reserved': _run_reserved, 'sametype': _run_sametype, 'derive_linutil': _run_derive_linutil,
-        'hist': _run_hist,
+        'hist': _run_hist, 'reuse': _run_reuse, 'stale_function': _run_stale_function,
     }[kind](case, rec)
     return rec.out()
 
@@ -1482,7 +1784,10 @@ def finalize(cov, tier):
             'hist_evaluations_after_reregistration_of_same_type', 'hist_eval_value', 'hist_eval_likelihood',
             'hist_eval_simulate', 'hist_reg_same', 'hist_reg_disjoint', 'hist_reg_mix', 'hist_reg_empty',
             'hist_reg_identical', 'hist_reg_refused_then_valid', 'hist_number_of_draws_changed',
-            'hist_stale_type_evaluations', 'hist_directed_reregister']
+            'hist_stale_type_evaluations', 'hist_directed_reregister', 'reuse_groups_compared',
+            'reuse_level_simulate', 'reuse_level_likelihood', 'reuse_level_value', 'reuse_level_function',
+            'reuse_unseeded_evaluation_first', 'reuse_other_model_in_between', 'reuse_evaluations_value_checked',
+            'reuse_first_object_reevaluated', 'reuse_directed_same_request', 'stale_function_checked']
     for k in need:
         if cov.get(k, 0) == 0:
             out.append(f'monitor never evaluated: {k}')
